@@ -1,11 +1,33 @@
 """Worker for C06: analyse the given files, in the given order, in ONE fresh interpreter
-(started with a given PYTHONHASHSEED), print the per-file results as JSON."""
+(started with a given PYTHONHASHSEED), print the per-file results as JSON.
+
+Second mode (`c06_worker.py check`): the job is {"root": dir, "runs": [[argument, ...], ...]}; the
+working directory becomes `root` and the REAL `check_command` is called once per argument list, one
+call after the other IN THIS interpreter (so whatever one call - or one argument - leaves behind is
+seen by the next); per call: exit code, the printed lines, the number of files checked and the files
+whose text was read."""
 import json
 import os
 import sys
 
 sys.path.insert(0, os.path.dirname(os.path.abspath(__file__)))
 import common  # noqa  (puts VERIF_REPO / /repo first on sys.path)
+
+if len(sys.argv) > 1 and sys.argv[1] == "check":
+    import select_real as sel
+    job = json.load(sys.stdin)
+    os.chdir(job["root"])
+    sel.reset_configuration()
+    out = []
+    for args in job["runs"]:
+        r = sel.run_check(args)
+        r["read"] = [os.path.relpath(p, job["root"]) if os.path.isabs(p) else os.path.normpath(p) for p in r["read"]]
+        r["listed"] = [[os.path.relpath(l[0], job["root"]) if os.path.isabs(l[0]) else os.path.normpath(l[0])] + list(l[1:])
+                       for l in r["listed"]]
+        out.append(r)
+    json.dump({"hashseed": os.environ.get("PYTHONHASHSEED"), "results": out}, sys.stdout)
+    sys.exit(0)
+
 import scan_real as sr
 
 cases = json.load(sys.stdin)
